@@ -16,6 +16,7 @@ import LdkModel.Proofs.ForwardHop
 import LdkModel.Proofs.ForwardClose
 import LdkModel.Proofs.ForwardMulti
 import LdkModel.Proofs.ForwardBlinded
+import LdkModel.Proofs.RaaBlock
 namespace Ldk.C02
 open Ldk Ldk.Forward Ldk.FwdGen
 
@@ -975,5 +976,52 @@ example : Ldk.BlindedGen.amtToForwardMsat 101 ⟨0, 10000, 0⟩ = some 100 := by
 example : Ldk.BlindedGen.amtToForwardMsat 100 ⟨0, 10000, 0⟩ = some 99 := by decide
 example : Ldk.BlindedGen.amtToForwardMsat 2 ⟨0, 4294967295, 1⟩ = none := by decide
 example : Ldk.BlindedGen.amtToForwardMsat 1000005 ⟨0, 2000000, 0⟩ = some 333335 := by decide
+
+/-! ## (g) the RAA-blocker map (`actions_blocking_raa_monitor_updates`): registration, release and the held test are the
+    GENERATED translations of internal_update_fulfill_htlc / claim_mpp_part / handle_monitor_update_release /
+    raa_monitor_updates_held (Generated/RaaBlock.lean, tools/gen_raablock.py) -/
+
+/-- Whatever the map held before (in particular: a blocker of an EARLIER claim over the same downstream channel that is still
+    pending), processing `update_fulfill_htlc` leaves the new claim's blocker registered on the downstream channel, keeps every
+    blocker that was there — on every channel — adds nothing else, and the channel's `revoke_and_ack` update is held. -/
+theorem raa_blocker_registered_for_every_fulfil (m : RaaBlock.BlockMap) (chan blocker : Nat) :
+    blocker ∈ RaaBlock.BlockMap.get (RaaBlockGen.registerOnFulfil m chan blocker) chan
+    ∧ RaaBlockGen.held (RaaBlockGen.registerOnFulfil m chan blocker) chan = true
+    ∧ (∀ c x, x ∈ RaaBlock.BlockMap.get m c → x ∈ RaaBlock.BlockMap.get (RaaBlockGen.registerOnFulfil m chan blocker) c)
+    ∧ (∀ c x, x ∈ RaaBlock.BlockMap.get (RaaBlockGen.registerOnFulfil m chan blocker) c → (c = chan ∧ x = blocker) ∨ x ∈ RaaBlock.BlockMap.get m c) := by
+  refine ⟨?_, ?_, ?_, ?_⟩
+  · exact (RaaBlock.mem_get_registerOnFulfil m chan blocker chan blocker).mpr (Or.inl ⟨rfl, rfl⟩)
+  · exact (RaaBlock.held_iff _ chan).mpr ⟨blocker, (RaaBlock.mem_get_registerOnFulfil m chan blocker chan blocker).mpr (Or.inl ⟨rfl, rfl⟩)⟩
+  · intro c x hx; exact (RaaBlock.mem_get_registerOnFulfil m chan blocker c x).mpr (Or.inr hx)
+  · intro c x hx; exact (RaaBlock.mem_get_registerOnFulfil m chan blocker c x).mp hx
+
+example : RaaBlock.BlockMap.get (RaaBlockGen.registerOnFulfil (RaaBlockGen.registerOnFulfil RaaBlock.BlockMap.empty 1 2000) 1 0) 1 = [2000, 0] := by decide
+
+/-- Releasing one completed blocker removes exactly that blocker from exactly that channel. -/
+theorem raa_release_removes_only_the_completed_blocker (m : RaaBlock.BlockMap) (chan blocker c x : Nat) :
+    x ∈ RaaBlock.BlockMap.get (RaaBlockGen.release m chan blocker) c ↔ x ∈ RaaBlock.BlockMap.get m c ∧ ¬ (c = chan ∧ x = blocker) :=
+  RaaBlock.mem_get_release m chan blocker c x
+
+example : RaaBlock.BlockMap.get (RaaBlockGen.release (RaaBlockGen.registerOnFulfil (RaaBlockGen.registerOnFulfil RaaBlock.BlockMap.empty 1 2000) 1 0) 1 2000) 1 = [0] := by decide
+
+/-- Over ALL histories of fulfils and completion-action releases (any number of HTLCs, inbound edges and downstream channels, any
+    interleaving, repeated fulfils): the downstream channel's `revoke_and_ack` monitor update is held EXACTLY while some claim over
+    that channel is pending (fulfilled by the next hop, its inbound edge's preimage update not yet released). -/
+theorem raa_update_held_iff_some_claim_pending (evs : List RaaBlock.Ev) (chan : Nat) :
+    RaaBlock.raaParked (RaaBlock.runEv RaaBlock.BlockMap.empty evs) chan = true ↔ ∃ b, RaaBlock.pending chan b evs = true := by
+  unfold RaaBlock.raaParked RaaBlock.pending
+  rw [RaaBlock.held_iff]
+  constructor
+  · rintro ⟨b, hb⟩
+    refine ⟨b, ?_⟩
+    have := (RaaBlock.mem_get_runEv evs RaaBlock.BlockMap.empty chan b).mp hb
+    simpa [RaaBlock.BlockMap.get, RaaBlock.BlockMap.empty] using this
+  · rintro ⟨b, hb⟩
+    refine ⟨b, (RaaBlock.mem_get_runEv evs RaaBlock.BlockMap.empty chan b).mpr ?_⟩
+    simpa [RaaBlock.BlockMap.get, RaaBlock.BlockMap.empty] using hb
+
+/-- the round-5 schedule: two claims over downstream channel 1 from inbound edges 0 and 2; the first one's release leaves the update held -/
+example : RaaBlock.raaParked (RaaBlock.runEv RaaBlock.BlockMap.empty [.fulfil 1 0, .fulfil 1 2000, .release 1 0]) 1 = true := by decide
+example : RaaBlock.raaParked (RaaBlock.runEv RaaBlock.BlockMap.empty [.fulfil 1 0, .fulfil 1 2000, .release 1 0, .release 1 2000]) 1 = false := by decide
 
 end Ldk.C02
